@@ -124,6 +124,22 @@ def run(model, col, tier):
 
         _c08_13.check_ctor_params_unchanged(model, col, "R13.1")
         _c09_13.check_literal_types(model, col, "R13.1")
+        # ... and the value is the one the spelling denotes (sign included, = R01.9): `x[-0x1]` must not be read as x[1]
+        from ..report import Collector as _C131
+        from ..vmmodel import VMModel as _VM131
+        from . import c01 as _c01_13
+
+        sub131 = _C131("C01")
+        _c01_13.run_R01_9(model, sub131, G, _VM131(model))
+        for ob in sub131.obligations:
+            if "integer constant spellings" in ob.construct:
+                ob.rule = "R13.1"
+                col.obligations.append(ob)
+        # names are typed in the scope they are used in: the bounds and index-type tests read the type of *this* `a`, not of an
+        # earlier sibling's (memo-key completeness over the type pass, = R12.4)
+        from .. import memo as _memo13
+
+        _memo13.check_file(model, col, "R13.1", CT)
         narrowed = [" ".join(unparse(g.test).split())[:90] for g in guards if not _pure_lit(g.test)]
         col.check(not narrowed, "R13.1", f"{OOB}::_ValidateArrayExpression what counts as a constant index", "being a LiteralExpression is the whole test",
                   f"`{narrowed[0] if narrowed else ''}` narrows what counts as a constant index: literals that fail the extra condition (another literal type, another spelling) are never "
